@@ -56,11 +56,11 @@ Definition session_create (ps : list policy) : M unit :=
   (match ps with p :: _ => check_st (valid_policy p) | [] => ret tt end) ;;;
   ok <- alloc1 ;;
   if negb ok then exit_with st_alloc_fail else
-  (* srtp_stream_list_alloc; on failure srtp_create calls srtp_dealloc with a NULL list *)
+  (* srtp_stream_list_alloc; on failure only the context is released *)
   ok1 <- alloc1 ;;
-  if negb ok1 then exit_with st_model_oob else
+  if negb ok1 then free_n 1 ;;; exit_with st_alloc_fail else
   ok2 <- alloc1 ;;
-  if negb ok2 then free_n 1 ;;; exit_with st_model_oob else
+  if negb ok2 then free_n 1 ;;; free_n 1 ;;; exit_with st_alloc_fail else
   put_s {| ss_template := None; ss_list := []; ss_cap := INITIAL_STREAM_INDEX_SIZE_c |} ;;;
   r <- catch (add_all ps) ;;
   match r with
@@ -83,7 +83,8 @@ Definition compatible (s : stream) (p : policy) : Z :=
   else if s_use_mki s && negb (s_mki_size s =? p_mki_size p) then st_bad_param
   else st_ok.
 
-(* stream_update (explicit SSRC): remove, then add, then restore index and SRTCP window *)
+(* stream_update (explicit SSRC): build the replacement, remove the old stream, insert the new one
+   with the old index and SRTCP window *)
 Definition stream_update_specific (p : policy) : M unit :=
   check_st (valid_policy p) ;;;
   ss <- get_s ;;
@@ -91,16 +92,11 @@ Definition stream_update_specific (p : policy) : M unit :=
   | None => exit_with st_bad_param
   | Some old =>
     check_st (compatible old p) ;;;
+    n <- build_stream p ;;
     stream_remove (p_ssrc p) ;;;
-    stream_add p ;;;
-    ss2 <- get_s ;;
-    match list_get (ss_list ss2) (p_ssrc p) with
-    | None => exit_with st_fail
-    | Some n =>
-      let rx := s_rdbx n in
-      put_stream (RList (p_ssrc p))
-        (set_rdb (set_rdbx n {| index := index (s_rdbx old); wlen := wlen rx; mask := mask rx |}) (s_rdb old))
-    end
+    let rx := s_rdbx n in
+    insert_or_dealloc
+      (set_rdb (set_rdbx n {| index := index (s_rdbx old); wlen := wlen rx; mask := mask rx |}) (s_rdb old))
   end.
 
 (* a stream list under construction (update_template_streams) *)
@@ -153,16 +149,17 @@ Definition update_template (p : policy) : M unit :=
   | None => exit_with st_bad_param
   | Some oldt =>
     check_st (compatible oldt p) ;;;
+    mark <- live_now ;;
     owned <- stream_alloc p ;;
     r <- catch (stream_init p owned) ;;
     match r with
-    | inr st => free_n 1 ;;; exit_with st            (* only the stream struct is released *)
+    | inr st => release_since mark ;;; exit_with st   (* srtp_stream_dealloc(new_stream_template, NULL) *)
     | inl (newt, _) =>
       (* srtp_stream_list_alloc *)
       ok1 <- alloc1 ;;
-      if negb ok1 then free_n 1 ;;; exit_with st_alloc_fail else
+      if negb ok1 then stream_dealloc newt ;;; exit_with st_alloc_fail else
       ok2 <- alloc1 ;;
-      if negb ok2 then free_n 1 ;;; free_n 1 ;;; exit_with st_alloc_fail else
+      if negb ok2 then free_n 1 ;;; stream_dealloc newt ;;; exit_with st_alloc_fail else
       mv <- move_streams (S (length (ss_list ss))) newt ([], INITIAL_STREAM_INDEX_SIZE_c) ;;
       let '(st, nl) := mv in
       if negb (st =? st_ok) then
